@@ -23,7 +23,7 @@ def main():
         ck.broken.append("Spec/C02Oracle.v / Model/ProtocolCheck.v do not build")
         ck.finish(BASE_TRUST + PROTO_TRUST)
     tmpd = tempfile.mkdtemp(prefix="lsf_c03_")
-    sizes = [("seq", 1500 if thorough else 200), ("fanout_ok", 800 if thorough else 100), ("fanout_fail", 800 if thorough else 100), ("fanout_fail_nested", 800 if thorough else 100)]
+    sizes = [("seq", 1500 if thorough else 200), ("fanout_ok", 800 if thorough else 100), ("fanout_fail", 800 if thorough else 100), ("fanout_fail_nested", 800 if thorough else 100), ("children", 600 if thorough else 80)]
     infos = ec.run_profiles(rng, tmpd, sizes, thorough)
     shutil.rmtree(tmpd, ignore_errors=True)
 
@@ -35,10 +35,24 @@ def main():
         return d
 
     for info in infos:
+        if info.status == "max_steps":
+            # the generated machines are loop free (Choice jumps forward only) and every Retry is bounded: a run that is still busy after 4000 steps never comes to rest
+            d = desc(info)
+            ck.violation("the run did not come to rest within 4000 steps (a livelock: the executions never end): %s"
+                         % json.dumps({k: d[k] for k in ("profile", "schedule", "definition", "child_definition", "inputs") if k in d})[:1500], {"case": d})
+            break
+    for info in infos:
         if info.status == "exception":
             d = desc(info)
             ck.violation("an engine callback raised %s: the process would stop, the execution never ends and its event is never acknowledged: %s"
-                         % (info.exception["error"], json.dumps({k: d[k] for k in ("profile", "schedule", "definition", "inputs")})[:1200]), {"case": d})
+                         % (info.exception["error"], json.dumps({k: d[k] for k in ("profile", "schedule", "definition", "child_definition", "inputs") if k in d})[:1200]), {"case": d})
+            break
+    for info in infos:
+        if info.stale_timers:
+            d = desc(info)
+            d["stale_timers"] = info.stale_timers
+            ck.violation("every execution has ended and no message is queued or unacknowledged, but a timer is still armed (name, seconds until due): %s %s"
+                         % (json.dumps(info.stale_timers), json.dumps({k: d[k] for k in ("profile", "schedule", "definition", "child_definition", "inputs") if k in d})[:1300]), {"case": d})
             break
     pcases, pdesc = [], []
     for info in infos:
@@ -72,7 +86,7 @@ def main():
                     continue
                 d["trace"] = infos[i].trace_term
                 d["leftovers"] = infos[i].leftovers
-                ck.violation("%s: %s" % (what[f], json.dumps({k: d[k] for k in ("profile", "schedule", "definition", "inputs")})[:1500]), {"case": d, "monitor": f})
+                ck.violation("%s: %s" % (what[f], json.dumps({k: d[k] for k in ("profile", "schedule", "definition", "child_definition", "inputs") if k in d})[:1500]), {"case": d, "monitor": f})
     acks = sum(1 for i in infos for st in i.steps for e, _ in st["effects"] if e.startswith("Ack"))
     ck.add_group("monitors", len(cases), sum(1 for i in infos if len(i.steps) > 3), [desc(infos[0])],
                  runs=len(infos), quiescent=sum(1 for i in infos if i.status == "quiescent"), steps=sum(len(i.steps) for i in infos), acknowledgements=acks,
